@@ -314,6 +314,40 @@ def _m5_flatten_namespace(ctx, prog, f, cfg, site, asg, holder, c):
         pass
 
 
+@rule('M5b', floor=2, title='a treespec derived from two treespecs takes its namespace from both')
+def m5b(ctx):
+    """`==` treats '' as a wildcard, so a result that silently keeps only one operand's namespace
+    still compares equal - but it looks up custom nodes in the wrong namespace."""
+    prog = ctx.cxx()
+    n = 0
+    for f in live_funcs(prog):
+        if f.body is None or f.is_lambda or f.record != SPEC_REC:
+            continue
+        others = [p[0] for p in f.params if 'PyTreeSpec' in (p[1] or '') and '&' in (p[1] or '')]
+        cr = [c for c in _spec_creations(prog, f) if not c[2]]
+        if not others or not cr or f.is_static:
+            continue
+        for c, holder, _ in cr:
+            asg = _assign_nodes(f, holder, 'm_namespace')
+            if not asg:
+                continue
+            n += 1
+            srcs = set()
+            for a, rhs in asg:
+                p = member_path(rhs)
+                if p:
+                    srcs.add(p)
+            for o in others:
+                ctx.check('%s/namespace-from-%s' % (short(f), o),
+                          ('%s.m_namespace' % o) in srcs and 'm_namespace' in srcs,
+                          '%s: the result takes its namespace from this treespec or from `%s`, '
+                          'whichever has one' % (inst(f), o),
+                          '%s: the namespace of the result is assigned from %s only - the namespace '
+                          'of `%s` is dropped, and == cannot see it because an empty namespace is '
+                          'a wildcard' % (inst(f), sorted(srcs), o), c.loc)
+    ctx.require(n >= 2, 'only %d two-operand treespec producers found (Compose, BroadcastToCommonSuffix)' % n)
+
+
 # ---------------------------------------------------------------------------------------------
 @rule('A3', floor=3, title='GC traversal visits every Python object a treespec node holds')
 def a3(ctx):
